@@ -70,6 +70,13 @@ CHECKS["C05"] = dict(
     design="4 (C05)",
 )
 
+CHECKS["C10"] = dict(
+    technique="Coq proof (frame lemma for every primitive of a state-and-error monad, lifted through the loops of create_node by induction on fuel; state kept on failure so that failing and backtracking runs are covered) over a hand-written Gallina model of the deciders, create_node and the metahandlers in which Grammar.alternatives is part of the threaded state + differential correspondence on real classes/deciders/sources observing Grammar.alternatives before and after every call",
+    text="3 theorems (Props/C10.v, closed under the global context): for every grammar, type, context, decider (grow, full, PI-grow, progressive, dynamic SGE), random source state and fuel, whether create_node returns a program, fails, or backtracks over productions internally, the productions in the final state are those of the initial state; the same along any sequence of creations each starting from the state the previous one left; choosing a production never writes. Tied to /repo by ~260 runs per check (a family whose dependent refinement is infeasible for some sibling values, forcing the backtracking loop; generated hierarchies; recorded, extreme and gene-backed random sources) in which the result, the state of the random source and Grammar.alternatives before/after are compared with the model inside Coq.",
+    note="Trusted: Coq kernel + vm_compute; hand-written model Model/Synth.v; harness. Distances, recursive set and weights are not written by any modelled operation (they are not part of the threaded state); the tree representation's create path is covered, mapping/mutation/crossover of the other representations call the same create_node.",
+    design="4 (C10)",
+)
+
 ALL = [f"C{n:02d}" for n in range(1, 21)]
 
 m = {
